@@ -481,7 +481,7 @@ func superviseCheck(p Property, tier string, seed uint64) int {
 	// how long a case may run alone, budgets lifted, before it counts as not finishing; and for all of them together
 	confirmEach, confirmTotal := 60*time.Second, 6*time.Minute
 	if tier != "thorough" {
-		confirmEach, confirmTotal = 25*time.Second, 75*time.Second
+		confirmEach, confirmTotal = 20*time.Second, 50*time.Second
 	}
 	for _, c := range candidates {
 		if confirmed >= 3 {
